@@ -691,3 +691,77 @@ def rule_repr_robust(check, rule):
                                     witness='@wrappers.decorator-wrapped def fn(self, x): sigtools.signature(fn) raises AttributeError')
     if not n:
         check.holds(rule, '-', 'no __repr__/__str__ reads %s of self' % '/'.join(sorted(attrs)), key='repr|clean', nontrivial=False)
+
+
+# ---------------------------------------------------------------------------
+# C07.R4b -- implicit AttributeError sources
+
+# reads of special attributes that escape retrieval as far as the handlers go, each with the reason why the object has the attribute
+REVIEWED_IMPLICIT = {
+    '_autoforwards:autoforwards_method|attr:$.__self__': 'reached only from autoforwards() under isinstance(obj, types.MethodType)',
+    '_autoforwards:autoforwards_method|attr:$.__func__': 'reached only from autoforwards() under isinstance(obj, types.MethodType)',
+    '_autoforwards:resolve_name|attr:$.__globals__': 'func is the object whose code was parsed by get_ast (it has __code__): a function, or a bound '
+                                                     'method, which hands attribute reads on to its function',
+    '_autoforwards:resolve_name|attr:$.__code__': 'same object: get_ast returned its AST only because func.__code__ exists',
+}
+IMPLICIT_ROOTS = ('_specifiers:forged_signature', '_signatures:signature', 'sphinxext:process_signature')
+
+
+def _type_established(fi, node):
+    """the attribute read sits under `if isinstance(<same expression>, ...)` (or after hasattr(<same>, '<attr>'))"""
+    base = norm(node.value)
+    t = node
+    while t is not None and t is not fi.node:
+        par = getattr(t, '_parent', None)
+        if isinstance(par, ast.If) and t in par.body:
+            for c in ast.walk(par.test):
+                if isinstance(c, ast.Call) and isinstance(c.func, ast.Name) and c.args and norm(c.args[0]) == base:
+                    if c.func.id == 'isinstance':
+                        return True
+                    if c.func.id == 'hasattr' and len(c.args) == 2 and isinstance(c.args[1], ast.Constant) and c.args[1].value == node.attr:
+                        return True
+        t = par
+    return False
+
+
+def rule_implicit_attribute_errors(check, rule):
+    """C07.R4b: reading a special attribute (`__self__`, `__func__`, `__code__`, `__globals__`, `__name__`, `__wrapped__`, ...) off an
+    object the package did not build raises AttributeError when the object lacks it.  With these reads as exception sources, the
+    escape analysis over the resolved call graph says which of them can leave retrieval (or the Sphinx hook): each must be under a
+    type test of the same expression, or in the reviewed table with the reason why the attribute is there."""
+    cg, _es = get_escape(check)
+    key0 = id(check.repo)
+    es = _shared.get(('implicit', key0))
+    if es is None:
+        es = Escape(check.repo, cg, implicit_attrs=True)
+        _shared[('implicit', key0)] = es
+    n_sources = sum(1 for items in es.local.values() for kind, node, payload in items if kind == 'implicit')
+    seen = set()
+    n = 0
+    for root in IMPLICIT_ROOTS:
+        fi = check.repo.func(root, required=False)
+        if fi is None:
+            check.inconclusive(rule, '-', 'anchor %s vanished' % root, key='implicit|root|%s' % root)
+            continue
+        check.analysed(fi)
+        for x in es.of(root):
+            if x.kind != 'implicit':
+                continue
+            key = 'implicit|%s' % x.origin
+            if key in seen:
+                continue
+            seen.add(key)
+            n += 1
+            st = site_of(x.func, x.node)
+            if _type_established(x.func, x.node):
+                check.holds(rule, st, 'read of %s under a type test of the same expression' % norm(x.node)[:40], key=key)
+            elif x.origin in REVIEWED_IMPLICIT:
+                check.holds(rule, st, 'read of %s: reviewed (%s)' % (norm(x.node)[:40], REVIEWED_IMPLICIT[x.origin]), key=key)
+            else:
+                check.violation(rule, st, 'reading %s can raise AttributeError, and nothing between here and %s() converts it: retrieval fails for '
+                                'an object without that attribute (a callable instance, a builtin, a partial, a C function, ...)'
+                                % (norm(x.node)[:40], root.split(':')[-1]), key=key,
+                                witness='sigtools.signature(obj) for a callable obj lacking %s' % x.node.attr)
+    check.holds(rule, '-', '%d reads of special attributes off foreign objects in the package, %d of them can reach the end of retrieval' % (n_sources, n),
+                key='implicit|inventory', nontrivial=False)
+    check.floor(rule, 'reads of special attributes off foreign objects', n_sources, 10)
